@@ -1,5 +1,6 @@
 import Physt.Driver
 import Physt.Model.HistND
+import Physt.Model.Config
 /-! ND part of the line-protocol driver. -/
 open Lean (Json)
 namespace Physt.Driver
@@ -250,11 +251,40 @@ def runHistN (fo : FloatOps) (case : Json) : E Json := do
     outs := outs.push (Json.mkObj [("ret", ret), ("regs", Json.arr regs)])
   pure (Json.arr outs)
 
+def getCOp (j : Json) : E COp := do
+  let name ← (← field j "op").getStr?
+  match name with
+  | "set" => pure (.set (getBoolD j "v" false))
+  | "enter" => pure (.enter (getBoolD j "v" false))
+  | "exit" => pure .exit
+  | "read" => pure .read
+  | "arith" => pure .arith
+  | "spawn_thread" => do pure (.spawnThread (← (← field j "child").getNat?))
+  | "spawn_task" => do pure (.spawnTask (← (← field j "child").getNat?))
+  | _ => throw s!"unknown config op {name}"
+
+def jCObs : CObs → Json
+  | .none => Json.null
+  | .value b => Json.mkObj [("value", b)]
+  | .accepted b => Json.mkObj [("accepted", b)]
+  | .underflow => "underflow"
+
+/-- a schedule of config operations: `[{"t": thread, "op": ..}, ...]` -/
+def runConfig (case : Json) : E Json := do
+  let dflt := getBoolD case "default" false
+  let sched ← getList (fun j => do
+    let t ← (← field j "t").getNat?
+    let op ← getCOp j
+    pure (t, op)) (← field case "sched")
+  let (_, obs) := World.run dflt World.init sched
+  pure (Json.arr (obs.map fun (t, o) => Json.mkObj [("t", Json.num t), ("obs", jCObs o)]).toArray)
+
 def runCaseAll (case : Json) : E Json := do
   let kind ← (← field case "kind").getStr?
   let fo := if getBoolD case "exact" false then FloatOps.exact else FloatOps.ieee
   match kind with
   | "histn" => runHistN fo case
+  | "config" => runConfig case
   | _ => runCase case
 
 def handleLineAll (line : String) : String :=
